@@ -40,7 +40,7 @@ FLOOR = {
     "cc:fold>1:TorchSumLayer": 1, "cc:fold>1:TorchHadamardLayer": 1, "cc:fold>1:TorchCategoricalLayer": 1,
     "cc:fold>1:TorchConstantValueLayer": 1, "cc:fold>1:TorchEvidenceLayer": 1,
     "ccp:fold>1:TorchTensorParameter": 1, "ccp:pointer-fold-idx": 1, "ccp:fold>1:TorchPointerParameter": 1,
-    "ab:index-tensor": 1, "ab:unsqueeze0": 1, "ab:unsqueeze1": 1,
+    "ab:index-tensor": 1, "ab:unsqueeze0": 1, "ab:unsqueeze1": 1, "product-with-several-consumers": 1,
     "interior-output": 1, "multi-output": 1, "shared-layer": 1, "pipeline": 1,
     "addressable_checked": 100, "values_compared": 1000,
 }
